@@ -137,6 +137,10 @@ func rpRunOp(c *rux.Context, op Sx) {
 	case "w":
 		var obs []Sx
 		wopRun(c, op.List[1], &obs)
+	case "hijack": // the handler takes over the connection
+		if hj, ok := c.Resp.(http.Hijacker); ok {
+			_, _, _ = hj.Hijack()
+		}
 	case "sd":
 		c.Set(op.List[1].Str(), op.List[2].Int())
 	case "ae":
